@@ -115,6 +115,7 @@ type State struct {
 	IsLeader                            bool
 	RaftState                           string
 	Leader                              string
+	Mutates                             int // store writes performed by this node life (faulty store counter)
 }
 
 // Backup mirrors storage.BackupInfo.
